@@ -70,9 +70,9 @@ func c20Gen(r *kit.Rng) *sched.Scenario {
 			switch {
 			case loads && x < 3:
 				ms := modset.Generate(r, r.Range(20, 50))
-				cl.Ops = append(cl.Ops, sched.Op{Kind: "load-set", Files: ms.Files, Main: ms.Main})
+				cl.Ops = append(cl.Ops, sched.Op{Kind: "load-set", Files: ms.Files, Main: ms.Main, Cfg: r.Intn(2)})
 			case loads && x < 4:
-				cl.Ops = append(cl.Ops, sched.Op{Kind: "load-m", Files: mods, Main: "m"})
+				cl.Ops = append(cl.Ops, sched.Op{Kind: "load-m", Files: mods, Main: "m", Cfg: r.Intn(2)})
 			case x < 6:
 				op := g.next(cur)
 				next := cur.Clone()
